@@ -144,6 +144,12 @@ func c07ScanContent(p *Prog, ls *Lockset, r *Report) {
 						}
 					}
 				}
+				// … or in the predicate handed to a library search over the list (slices.ContainsFunc / IndexFunc)
+				if h := c.Call.StaticCallee(); h != nil && fnPkgPath(h) == "slices" && strings.HasSuffix(originName(h), "Func") && len(c.Call.Args) == 2 {
+					for _, pf := range predicateFunctions(c.Call.Args[1], 0) {
+						decidingValues(pf, 0, func(v ssa.Value) { collectInvokes(v, names, 0) })
+					}
+				}
 			})
 		}
 		delete(names, "")
